@@ -34,6 +34,7 @@ func init() {
 		ID: "C20",
 		Rules: []RuleSpec{
 			{"lock-pairing", "in pkg/network/bqueue and pkg/core/statesync every mutex acquired is released on every exit (defer-aware, boolean-correlated; the hand-unlocked Blocking branch of Queue.Put included)", func(c *Ctx) { lockPairingPkgs(c, []string{"pkg/network/bqueue", "pkg/core/statesync"}, nil, 10) }},
+			{"sync-guards", "restored MPT nodes are stored only behind the hash comparison; statesync stores blocks only behind index/setting/Merkle/header-hash/stage checks; stage bits are set only after the root/sync-point test and a synchronous persist; queue slots are cleared only behind a content test; each restore call gets its own clone", ruleSyncGuards},
 			{"chan-typestate", "every send on Queue.checkBlocks holds queueLock and follows a `discarded` check made after the lock was last acquired; the channel is closed only by the function that sets the flag", ruleChanTypestate},
 		},
 		NotCovered: "ring-buffer position arithmetic, lastQ, in-order application, pool/path bookkeeping, lockstep with the source node",
